@@ -80,28 +80,54 @@ Definition sensor_available (streams : list cstream) (p inp : string) : bool :=
   end.
 
 (* ------------------------------------------------------------------ stream discovery *)
-(* one entry of sdp_archived_streams: name, stream_type, and for an imager stream the values of its `targets` dict *)
-Record astream := mk_astream { as_name : string; as_type : string; as_targets : list string }.
+(* one entry of sdp_archived_streams as `_relative_view(attrs, stream)` shows it: its name, its stream_type ("" = no
+   such attribute) and its `targets` attribute: None = absent, Some l = the VALUES of the dict, in order *)
+Record astream := mk_astream { as_name : string; as_type : string; as_targets : option (list string) }.
+(* stream_attrs.get('targets', {}).values() *)
+Definition targets_of (a : astream) : list string := match as_targets a with Some l => l | None => [] end.
 (* telstate.join(stream, target + '_selfcal') *)
-Definition selfcal_name (stream target : string) : string := stream ++ "_" ++ target ++ "_selfcal".
+Definition selfcal_name (stream target : string) : string := stream ++ "_" ++ target ++ disc_selfcal_suffix.
+Definition substreams_of (a : astream) : list string := map (selfcal_name (as_name a)) (targets_of a).
+(* the guards `not l1_stream` / `not l2_streams` of the two branches, when the source has them (Gen/Generated.v) *)
+Definition l1_unset (l1 : string) : bool := if disc_l1_guarded then String.eqb l1 "" else true.
+Definition l2_unset (l2 : list string) : bool :=
+  if disc_l2_guarded then match l2 with [] => true | _ => false end else true.
+(* the walk over sdp_archived_streams: ANY list - several cal streams, several imagers, imagers with empty / absent
+   targets, streams of other types, in any order *)
 Fixpoint discover_from (l : list astream) (l1 : string) (l2 : list string) : string * list string :=
   match l with
   | [] => (l1, l2)
   | a :: t =>
-      if String.eqb l1 "" && String.eqb (as_type a) "sdp.cal" then discover_from t (as_name a) l2
-      else if match l2 with [] => String.eqb (as_type a) "sdp.continuum_image" | _ => false end
-           then discover_from t l1 (map (selfcal_name (as_name a)) (as_targets a))
+      if l1_unset l1 && String.eqb (as_type a) disc_cal_type then discover_from t (as_name a) l2
+      else if l2_unset l2 && String.eqb (as_type a) disc_image_type then discover_from t l1 (substreams_of a)
       else discover_from t l1 l2
   end.
 (* (underlying L1 stream, underlying L2 substreams) *)
 Definition discover (l : list astream) : string * list string :=
   let r := discover_from l "" [] in
-  (if String.eqb (fst r) "" then "cal" else fst r, snd r).
+  (if String.eqb (fst r) "" then disc_l1_default else fst r, snd r).
 
-(* what telstate holds about one stream name: stream_type, `targets` values, cal_input_map inputs (antlist x
+(* SPEC side (nothing from the source): the documented choice over the whole list of archived streams.
+   L1 = the FIRST stream of type sdp.cal, 'cal' when there is none (older files);
+   L2 = one <imager>_<target>_selfcal stream per self-cal target of the FIRST sdp.continuum_image stream THAT HAS
+        self-cal targets - an imager that had nothing to image (`targets` empty or absent) is passed over wherever it
+        stands; none when no imager has targets. *)
+Definition is_cal_stream (a : astream) : bool := String.eqb (as_type a) "sdp.cal".
+Definition productive_imager (a : astream) : bool :=
+  String.eqb (as_type a) "sdp.continuum_image" && match as_targets a with Some (_ :: _) => true | _ => false end.
+Definition spec_l1 (l : list astream) : string :=
+  match filter is_cal_stream l with a :: _ => as_name a | [] => "cal" end.
+Definition spec_l2 (l : list astream) : list string :=
+  match filter productive_imager l with
+  | a :: _ => map (fun t => as_name a ++ "_" ++ t ++ "_selfcal") (targets_of a)
+  | [] => []
+  end.
+Definition spec_discover (l : list astream) : string * list string := (spec_l1 l, spec_l2 l).
+
+(* what telstate holds about one stream name: stream_type, `targets` values (None = no such attribute), cal_input_map inputs (antlist x
    pol_ordering; [] when absent), whether center_freq / bandwidth / n_chans are all there, and the product types with
    solutions in this capture block *)
-Record tstream := mk_tstream { ts_name : string; ts_type : string; ts_targets : list string;
+Record tstream := mk_tstream { ts_name : string; ts_type : string; ts_targets : option (list string);
                                ts_inputs : list string; ts_spectral : bool; ts_types : list string }.
 Fixpoint find_tstream (s : string) (l : list tstream) : option tstream :=
   match l with
@@ -111,7 +137,7 @@ Fixpoint find_tstream (s : string) (l : list tstream) : option tstream :=
 Definition astream_of (tel : list tstream) (n : string) : astream :=
   match find_tstream n tel with
   | Some t => mk_astream n (ts_type t) (ts_targets t)
-  | None => mk_astream n "" []
+  | None => mk_astream n "" None
   end.
 Definition types_of (tel : list tstream) (n : string) : list string :=
   match find_tstream n tel with Some t => ts_types t | None => [] end.
@@ -130,6 +156,19 @@ Definition registered (tel : list tstream) (archived : list string) : list cstre
   let d := discover (map (astream_of tel) archived) in
   (register_one tel "l1" (fst d) [fst d] ++
    match snd d with [] => [] | h :: _ => register_one tel "l2" h (snd d) end)%list.
+
+(* SPEC side: which aliases a data set offers.  'l1' iff the documented L1 stream has a cal input map and its spectral
+   attributes; 'l2' iff some imager has self-cal targets and the FIRST self-cal substream of the first such imager has
+   them (add_applycal_sensors reads the attributes of l2_streams[0]) *)
+Definition attrs_ok (tel : list tstream) (n : string) : bool :=
+  match find_tstream n tel with
+  | Some t => match ts_inputs t with [] => false | _ => ts_spectral t end
+  | None => false
+  end.
+Definition spec_aliases (tel : list tstream) (archived : list string) : list string :=
+  let l := map (astream_of tel) archived in
+  ((if attrs_ok tel (spec_l1 l) then ["l1"] else []) ++
+   match spec_l2 l with [] => [] | h :: _ => if attrs_ok tel h then ["l2"] else [] end)%list.
 
 (* ------------------------------------------------------------------ the whole request -> applied products *)
 Inductive outcome := ValueErr | KeyErr | Applied (l : list string).
@@ -160,16 +199,19 @@ Definition cstream_of_sx (x : sx) : cstream :=
   | L [n; i; t] => mk_cstream (to_string n) (to_strings i) (map to_strings (to_list t))
   | _ => mk_cstream EmptyString [] []
   end.
+(* targets on the wire: L [] = attribute absent, L [L names] = present *)
+Definition opt_strings_of_sx (x : sx) : option (list string) :=
+  match x with L [tg] => Some (to_strings tg) | _ => None end.
 Definition astream_of_sx (x : sx) : astream :=
   match x with
-  | L [n; ty; tg] => mk_astream (to_string n) (to_string ty) (to_strings tg)
-  | _ => mk_astream EmptyString EmptyString []
+  | L [n; ty; tg] => mk_astream (to_string n) (to_string ty) (opt_strings_of_sx tg)
+  | _ => mk_astream EmptyString EmptyString None
   end.
 Definition tstream_of_sx (x : sx) : tstream :=
   match x with
   | L [n; ty; tg; i; sp; t] =>
-      mk_tstream (to_string n) (to_string ty) (to_strings tg) (to_strings i) (to_bool sp) (to_strings t)
-  | _ => mk_tstream EmptyString EmptyString [] [] false []
+      mk_tstream (to_string n) (to_string ty) (opt_strings_of_sx tg) (to_strings i) (to_bool sp) (to_strings t)
+  | _ => mk_tstream EmptyString EmptyString None [] false []
   end.
 Definition sx_of_outcome (o : outcome) : sx :=
   match o with
@@ -201,13 +243,20 @@ Definition wire_141 (x : sx) : sx :=
          sx_of_outcome (spec_applycal (request_of_sx r) cs (to_strings inputs))]
   (* stream discovery *)
   | L [I 2; archived] =>
-      let r := discover (map astream_of_sx (to_list archived)) in
-      L [of_string (fst r); L (map of_string (snd r))]
-  (* a whole data set: telstate streams + sdp_archived_streams + request -> [registered aliases; model; spec] *)
+      let l := map astream_of_sx (to_list archived) in
+      let r := discover l in
+      L [of_string (fst r); L (map of_string (snd r)); of_string (spec_l1 l); L (map of_string (spec_l2 l))]
+  (* a whole data set: telstate streams + sdp_archived_streams + request ->
+     [registered aliases; model; spec; documented aliases; model L1; model L2 substreams; spec L1; spec L2 substreams] *)
   | L [I 3; r; tel; archived; inputs] =>
-      let cs := registered (map tstream_of_sx (to_list tel)) (to_strings archived) in
+      let tl := map tstream_of_sx (to_list tel) in
+      let cs := registered tl (to_strings archived) in
+      let al := map (astream_of tl) (to_strings archived) in
       L [L (map (fun c => of_string (cs_name c)) cs);
          sx_of_outcome (applycal_products (request_of_sx r) cs (to_strings inputs));
-         sx_of_outcome (spec_applycal (request_of_sx r) cs (to_strings inputs))]
+         sx_of_outcome (spec_applycal (request_of_sx r) cs (to_strings inputs));
+         L (map of_string (spec_aliases tl (to_strings archived)));
+         of_string (fst (discover al)); L (map of_string (snd (discover al)));
+         of_string (spec_l1 al); L (map of_string (spec_l2 al))]
   | _ => sx_err
   end.
